@@ -161,6 +161,7 @@ func c09StoreLevel(r *Run) {
 				break
 			}
 		}
+		unlistedInRange := unlisted != nil
 		if unlisted == nil {
 			unlisted = new(big.Int).Add(listed, big.NewInt(1))
 			r.Count("store:unlisted-probe-outside-key-range")
@@ -240,9 +241,16 @@ func c09StoreLevel(r *Run) {
 			faultEffective["listed"], faultEffective["unlisted"] = true, true
 		}
 		lo, _ := st.get(b, &iss, listed)
-		uo, _ := st.get(b, &iss, unlisted)
+		probes := []string{"listed", "unlisted"}
+		uo := "-"
+		if strings.HasPrefix(c.Fault, "table-") && !unlistedInRange {
+			// the database may answer such a lookup from the table's key range without touching the damaged file: no failure, no claim
+			probes = probes[:1]
+		} else {
+			uo, _ = st.get(b, &iss, unlisted)
+		}
 		obs := map[string]string{"listed": lo, "unlisted": uo}
-		for _, which := range []string{"listed", "unlisted"} {
+		for _, which := range probes {
 			o := strings.Fields(obs[which])[0]
 			r.Count("store:" + c.Backend + ":" + strings.Split(c.Fault, ":")[0] + ":" + o)
 			if faultEffective[which] {
